@@ -16,9 +16,9 @@ from mc.common import reset_frame_state, quiet
 ID = 'C10'
 LEVEL = 'exploration'
 PRELOAD = ['frame.geometry.geometry', 'frame.netlist.netlist', 'frame.die.die', 'frame.allocation.allocation', 'ruamel.yaml', 'mc.common', 'tools.glbfloor.optimization']
-RULE = ("dies {4x4, 6x4, 4x4 with a blockage, 4x4 with a fixed module} x pre-refinement {split_refinable_regions(2,4) / (2,16) / (1.5,9), initial_grid(2,2) / (4,4) / (2,4) / (3,2) on empty dies} x netlists of "
+RULE = ("dies {4x4, 6x4, 4x4 with a blockage, 4x4 with a square / a 2x0.5 fixed module} x pre-refinement {split_refinable_regions(2,4) / (2,16) / (1.5,9), initial_grid(2,2) / (4,4) / (2,4) / (3,2) on empty dies} x netlists of "
         "2-3 modules from {soft A, soft B, soft C (overlapping the fixed module), hard single rectangle, hard L-shape, flippable hard L-shape, flippable shapes almost aligned in x or y} (+ the fixed module of the die, also named like the optimiser's internal name of a hard module's first rectangle) with a chain of 2-pin nets or one hyperedge x "
-        "alpha in {0.1, 0.5} x threshold in {0.7, 0.95} x max_iter in {1, 2} (quick: full product minus one corner); thorough: alpha {0.1,0.5,0.9} x threshold {0.5,0.7,0.95} x max_iter {1,2,3}. "
+        "alpha in {0.1, 0.5} x threshold in {0.7, 0.95} x max_iter in {1, 2} (quick: full product minus one corner) + threshold 1.0 with 3 rounds on the dies with a fixed module; thorough: alpha {0.1,0.5,0.9} x threshold {0.5,0.7,0.95} x max_iter {1,2,3}. "
         "Non-trivial = runs that returned an allocation with at least one cell shared by two modules or partially occupied; distinct by construction.")
 ASSUMPTIONS = ["'within solver tolerance': ratios in [-1e-6, 1+1e-6], per-cell occupancy <= 1 + 1e-4, centres inside the die within 1e-6 (GEKKO RTOL/OTOL default 1e-6)",
                "the check covers the enumerated instances with the APM/IPOPT binary shipped with GEKKO; it does not verify the solver",
@@ -30,6 +30,8 @@ DIES = {
     'd64': dict(w=6, h=4, regions=[], fixed=None),
     'd44b': dict(w=4, h=4, regions=[[3.5, 0.5, 1, 1, '#']], fixed=None),
     'd44f': dict(w=4, h=4, regions=[], fixed=[0.5, 3.5, 1, 1]),
+    # a fixed module that is not a square (2 x 0.5 along the top border)
+    'd44g': dict(w=4, h=4, regions=[], fixed=[1.0, 3.75, 2, 0.5]),
 }
 MODS = {
     'softA': {'area': 3.0, 'center': [1.0, 1.0]},
@@ -60,7 +62,9 @@ def instances(tier):
         alphas, thrs, iters, netlists = [0.1, 0.5, 0.9], [0.5, 0.7, 0.95], [1, 2, 3], range(len(NETLISTS))
     full = []
     for d, nl, pre, a, t, it in itertools.product(DIES, netlists, range(len(PRES)), alphas, thrs, iters):
-        if PRES[pre][0] == 'grid' and d in ('d44b', 'd44f'):
+        if PRES[pre][0] == 'grid' and d in ('d44b', 'd44f', 'd44g'):
+            continue
+        if d == 'd44g' and (nl not in (0, 2, 9, 10) or pre not in (0, 4)):
             continue
         if tier == 'quick' and a == 0.1 and t == 0.95:
             continue
@@ -71,6 +75,13 @@ def instances(tier):
             # the fixed module carries the name the optimiser gives internally to rectangle 0 of a movable hard module
             if d == 'd44f' and not hyper and it == 2 and any(MODS[k].get('hard') for k in NETLISTS[nl]):
                 full.append(dict(die=d, netlist=nl, pre=PRES[pre], alpha=a, thr=t, max_iter=it, hyper=hyper, collide=True))
+    # threshold exactly 1 (the only value at which the cell of a fixed module, ratio 1.0, does not block a split) with three
+    # and four refine/optimise rounds
+    for d in ('d44f', 'd44g'):
+        for nl in (0, 2, 9):
+            for pre in (0, 4):
+                for it in ((3,) if tier == 'quick' else (3, 4)):
+                    full.append(dict(die=d, netlist=nl, pre=PRES[pre], alpha=0.5, thr=1.0, max_iter=it, hyper=False))
     return full
 
 
